@@ -11,6 +11,7 @@ MODEL_BIN = os.path.join(LEAN, ".lake", "build", "bin", "flurry-model")
 EVIDENCE = os.path.join(VERIF, "evidence")
 REPLAYS = os.path.join(VERIF, "replays")
 KNOWN = os.path.join(VERIF, "KNOWN_FINDINGS.txt")
+JOBS = min(16, os.cpu_count() or 4)
 STD_AXIOMS = {"propext", "Classical.choice", "Quot.sound"}
 
 ENV = dict(os.environ)
@@ -80,9 +81,13 @@ def build_model_exe():
     return ok, out
 
 
-def build_harness():
+HARNESS_BIN_RELEASE = os.path.join(BUILD, "harness-target", "release", "flurry-harness")
+
+
+def build_harness(release=False):
     with Lock("harness"):
-        rc, out = sh(["cargo", "build", "--offline", "--quiet"], cwd=os.path.join(VERIF, "harness"), timeout=1800)
+        rc, out = sh(["cargo", "build", "--offline", "--quiet"] + (["--release"] if release else []),
+                     cwd=os.path.join(VERIF, "harness"), timeout=1800)
     return rc == 0, out
 
 
